@@ -84,6 +84,21 @@ Theorem C01_pin_lexer_sentinel :
   lexer_leading_blank_pattern = pinned_lexer_leading_blank_pattern.
 Proof. exact (conj pin_lexer_sentinel_guard (conj pin_lexer_sentinel_pos pin_lexer_leading_blank_pattern)). Qed.
 
+(* core4 = core3 + nested lists + inline-map items: the canonical text is re-readable and a fixpoint, text level, every depth *)
+From OV Require Rt.TokRound4 Rt.LexLink4Text Rt.LexLink4 Rt.LexLink4Ex.
+Theorem C01_text_fixpoint_core4 :
+  forall cls numcanon holo_ok strict sp d,
+    TokRound4.core4_doc d = true -> LexLink4.lex_safe4_doc d = true ->
+    TokRound4.nums_ok4_l numcanon TokRound2Ex.ex_idnum (dsections d) ->
+    Forall (TokRound4.field_num_ok4 numcanon TokRound2Ex.ex_idnum) (dmeta d) ->
+    exists d' warns, parse_model cls numcanon holo_ok strict (lines_of (emit sp d)) = PRDoc d' [] warns /\ emit sp d' = emit sp d.
+Proof.
+  exact (fun cls n h s sp d Hc Hl Hn Hm =>
+           match LexLink4.text_roundtrip_core4 cls n h s sp d Hc Hl Hn Hm with
+           | ex_intro _ w (conj Hp _) => ex_intro _ d (ex_intro _ w (conj Hp eq_refl))
+           end).
+Qed.
+
 (* ---- source-text pins (generated by harness/pinsets.py) ---- *)
 (* every function of these modules is, text for text (comments and docstrings excluded), the one the models of this
    property were written against and validated against: harness/translate/srcdigest_t.py, Src/Pin_*.v *)
